@@ -450,7 +450,7 @@ def window_table(ctx, rows):
 
 
 def validate_bucket(ctx, traces, meta, name):
-    verdicts = _tracecheck.validate(ctx, name, B.TRACE_MOD, B.TRACE_CFG, traces, chunk=6000)
+    verdicts = _tracecheck.validate(ctx, name, B.TRACE_MOD, B.TRACE_CFG, traces, chunk=2000)
     for tr in traces:
         v = verdicts[tr["tid"]]
         if v is None:
@@ -466,7 +466,7 @@ def validate_bucket(ctx, traces, meta, name):
 
 
 def validate_collate(ctx, traces, meta, name):
-    verdicts = _tracecheck.validate(ctx, name, B.CTRACE_MOD, B.CTRACE_CFG, traces, chunk=6000, want_expected=True)
+    verdicts = _tracecheck.validate(ctx, name, B.CTRACE_MOD, B.CTRACE_CFG, traces, chunk=2000, want_expected=True)
     for tr in traces:
         v = verdicts[tr["tid"]]
         if v is None:
@@ -554,10 +554,12 @@ def run(ctx):
     for k in spec:
         by_lens.setdefault(k[0], []).append(k)
     out = dict(bucket=[], collate=[], meta={})
-    per = 2 if ctx.quick else 8
+    per = 2 if ctx.quick else 6
     li = 0
     for lens in sorted(by_lens):
         keys = sorted(by_lens[lens])
+        if ctx.quick and len(lens) >= 5 and rng.random() < 0.5:
+            continue  # quick: every length vector up to 4 utterances, a seeded half of the longest ones
         if lens:
             picks = [(keys[rng.randrange(len(keys))], "spect" if (j + li) % 3 != 2 else "lang") for j in range(per)]
         else:  # the empty data set: every parameter combination, every loader
